@@ -42,13 +42,15 @@ def main(prop, tier, only=None, caps=None):
     e2units = []
     for L in e2caps:
         shapes = [('hx_fs_str', [op, 0 if prop == 'C10' else 1], 'L%d/strop%d' % (L, op)) for op in range(26) if not (prop == 'C10' and op in (22, 25)) and not (L > 16 and op >= 10 and op not in (22, 23, 24))]
+        if tier == 'quick' and L > 16:
+            shapes = [x for x in shapes if x[1][0] != 9]          # replace(pos,count,str,pos2,count2) at the large capacities: thorough tier (7 min per capacity)
         for n in ([256, 259] if tier == 'quick' else [255, 256, 257, 259, 260, 512, 515, 65536, 65539]):
             if L > 16:
                 break
             shapes += [('hx_fs_long', [op, n], 'L%d/longop%d/src%d' % (L, op, n)) for op in range(10)]
         if L > 16:
             # the core operations at the capacities around the switch of the length type
-            shapes += [('hx_fs_core', [op, 0 if prop == 'C10' else 1], 'L%d/coreop%d' % (L, op)) for op in range(21) if not (prop == 'C10' and op in (0, 2, 4, 5, 12, 13, 14, 19, 20)) and not (tier == 'quick' and op == 11)]
+            shapes += [('hx_fs_core', [op, 0 if prop == 'C10' else 1], 'L%d/coreop%d' % (L, op)) for op in range(21) if not (prop == 'C10' and op in (0, 2, 4, 5, 12, 13, 14, 19, 20)) and not (tier == 'quick' and op in (6, 10, 11, 17))]
         shapes += [('hx_fs_sprintf', [m], 'L%d/sprintf%d' % (L, m)) for m in range(5)]
         if only:
             shapes = [x for x in shapes if re.search(only, x[2])]
